@@ -50,7 +50,7 @@ func genC17(t *rapid.T) C17Case {
 	c.BadDialled = rapid.Bool().Draw(t, "bad_dialled")
 	c.SpoofRoute = rapid.SampledFrom([]string{"", "", "record-own", "record-victim-own", "record-proxy", "next-own"}).Draw(t, "spoof_route")
 	c.Spoof = rapid.SampledFrom([]string{"other-source", "empty-source", "no-header", "unattached-source"}).Draw(t, "spoof")
-	c.Role = rapid.SampledFrom([]string{"stuck-writer", "failing-reader", "failing-writer", "dial-error", "slow-dial", "slow-failing-dial", "both-fail-busy"}).Draw(t, "role")
+	c.Role = rapid.SampledFrom([]string{"stuck-writer", "failing-reader", "failing-writer", "dial-error", "slow-dial", "slow-failing-dial", "both-fail-busy", "many-slow-dials"}).Draw(t, "role")
 	c.OldFailsFirst = rapid.Bool().Draw(t, "old_first")
 	c.FailKind = rapid.SampledFrom([]string{"read", "write"}).Draw(t, "failkind")
 	c.InCallback = c.Mode == "reattach" && c.OldFailsFirst && rapid.Bool().Draw(t, "in_callback")
@@ -281,6 +281,13 @@ func execC17(t *testing.T, c C17Case) (v Verdict) {
 				// the dial is still in progress when the proxy is cancelled, and fails afterwards
 				w.slowDial = make(chan struct{})
 				_ = c0.A.Write(bg, pxEnv("c0", "tarpit", 500))
+			case "many-slow-dials":
+				// twenty destinations whose dials are all still in progress (and fail after the proxy is cancelled)
+				w.slowDial = make(chan struct{})
+				for k := 0; k < 20; k++ {
+					_ = c0.A.Write(bg, pxEnv("c0", fmt.Sprintf("tarpit%d", k), 500+k))
+					kit.Settle()
+				}
 			}
 			honest("with " + c.Role)
 			kit.Settle()
@@ -441,7 +448,7 @@ func execC17(t *testing.T, c C17Case) (v Verdict) {
 			time.Sleep(time.Second)
 		}
 		finish()
-		if c.Mode == "badpeer" && c.Role == "slow-failing-dial" {
+		if c.Mode == "badpeer" && (c.Role == "slow-failing-dial" || c.Role == "many-slow-dials") {
 			close(w.slowDial) // only now does the dial return (with an error)
 			kit.Settle()
 		}
